@@ -86,3 +86,45 @@ Print Assumptions c02_row_of_function_of_time.
 Print Assumptions c02_lower_rows.
 Print Assumptions c02_subsystem_lossless.
 Print Assumptions c02_numeric_update_is_rhs.
+
+(* end to end over the assembled system: in the system built from ANY list of entries that follow each
+   other in the state vector, the row of the highest derivative of every ODE entry means what the user
+   wrote, and the row of every lower derivative means the next-higher derivative *)
+From OdeVerif Require Import Proofs.AssembleP.
+Section C02System.
+  Variable K T : Type.
+  Variables (rO rI : T) (radd rmul rsub : T -> T -> T) (ropp : T -> T).
+  Hypothesis RT : ring_theory rO rI radd rmul rsub ropp (@eq T).
+  Variable inj : K -> T.
+  Variable pw : T -> Z -> T.
+  Hypothesis pw_1 : forall a, pw a 1%Z = a.
+  Variable rho : atom -> T.
+  Variable kone : K.
+  Hypothesis inj_one : inj kone = rI.
+  Variable fdeps : nat -> list atom.
+  Variable par : atom -> bool.
+  Hypothesis vars_not_par : forall i, par (AVar i) = false.
+
+  Theorem c02_system_rows : forall n (shapes : list (shape K)) (sh : shape K) dflt,
+    wf_from K 0 shapes -> In sh shapes -> sh_off sh + sh_order sh <= n ->
+    (forall p, sh_def sh = ODE p ->
+       ev_row K T rO rI radd rmul inj pw rho n (nth (sh_off sh + (sh_order sh - 1)) (from_shapes K kone fdeps par n shapes) dflt)
+       = ev_poly K T rO rI radd rmul inj pw rho p) /\
+    (forall d, d + 1 < sh_order sh ->
+       ev_row K T rO rI radd rmul inj pw rho n (nth (sh_off sh + d) (from_shapes K kone fdeps par n shapes) dflt)
+       = rho (AVar (sh_off sh + d + 1))).
+  Proof.
+    intros n shapes sh dflt Hwf Hin Hn.
+    assert (forall off, wf_from K off shapes -> 1 <= sh_order sh) as G.
+    { clear - Hin. induction shapes as [|s0 r IH]; intros off Hw; [destruct Hin|].
+      destruct Hw as [_ [H1 H2]]. destruct Hin as [<-|Hin']; [exact H1|exact (IH Hin' _ H2)]. }
+    pose proof (G 0 Hwf) as Ho.
+    split.
+    - intros p Hp. rewrite (system_row_final K kone fdeps par n shapes sh dflt Hwf Hin Ho).
+      exact (final_row_is_rhs K T rO rI radd rmul rsub ropp RT inj pw pw_1 rho fdeps par vars_not_par n sh p Hp Hn).
+    - intros d Hd. rewrite (system_row_lower K kone fdeps par n shapes sh d dflt Hwf Hin Hd).
+      apply (lower_row_is_next K T rO rI radd rmul rsub ropp RT inj pw rho kone inj_one n sh d).
+      clear - Hd Hn. Lia.lia.
+  Qed.
+End C02System.
+Print Assumptions c02_system_rows.
